@@ -9,8 +9,9 @@ import (
 	"fmt"
 	"go/token"
 	"go/types"
-
 	"golang.org/x/tools/go/ssa"
+	"sort"
+	"strings"
 )
 
 func isFileInfo(t types.Type) bool {
@@ -139,6 +140,233 @@ func ruleWalkersVisitAll(c *Ctx, rule string) int {
 				}
 			}
 		}
+	}
+	return n
+}
+
+// ---------------------------------------------------------------------------
+// C08.R9: the filters gate what the producers queue and enter.
+
+// anyFieldName: v is a load of a struct field (through a pointer or of a struct value); its name.
+func anyFieldName(v ssa.Value) string {
+	v = resolve(v)
+	if n, _ := fieldLoadName(v); n != "" {
+		return n
+	}
+	if fv, ok := v.(*ssa.Field); ok {
+		if s := fieldNameV(fv); s != "?" {
+			return s[strings.LastIndex(s, ".")+1:]
+		}
+	}
+	return ""
+}
+
+// filterPassedIn: the facts say that the filter stored in `field` is not set, or
+// that it was asked and accepted.
+func filterPassedIn(fs factSet, field string, pkg *ssa.Package, depth int) bool {
+	for k := range fs {
+		switch x := k.v.(type) {
+		case *ssa.BinOp:
+			if x.Op != token.EQL && x.Op != token.NEQ {
+				continue
+			}
+			var other ssa.Value
+			if isNilConst(x.Y) {
+				other = x.X
+			} else if isNilConst(x.X) {
+				other = x.Y
+			} else {
+				continue
+			}
+			if anyFieldName(other) == field && ((x.Op == token.EQL) == k.pol) {
+				return true
+			}
+		case *ssa.Call:
+			if h := x.Call.StaticCallee(); h != nil {
+				if h.Pkg == pkg && h.Blocks != nil && depth < 3 && boolImpliesFilter(h, k.pol, field, depth+1) {
+					return true
+				}
+				continue
+			}
+			if k.pol && !x.Call.IsInvoke() && anyFieldName(x.Call.Value) == field {
+				return true
+			}
+		}
+	}
+	return false
+}
+
+// boolImpliesFilter: whenever the bool function h returns `want`, the filter in
+// `field` was not set or accepted.
+func boolImpliesFilter(h *ssa.Function, want bool, field string, depth int) bool {
+	res := h.Signature.Results()
+	if res.Len() != 1 || !isBoolType(res.At(0).Type()) {
+		return false
+	}
+	facts := factsFor(h)
+	var impl func(v ssa.Value, want bool, fs factSet, seen map[ssa.Value]bool) bool
+	impl = func(v ssa.Value, want bool, fs factSet, seen map[ssa.Value]bool) bool {
+		if filterPassedIn(fs, field, h.Pkg, depth) {
+			return true
+		}
+		v = resolve(v)
+		if b, ok := constBool(v); ok {
+			return b != want
+		}
+		switch x := v.(type) {
+		case *ssa.UnOp:
+			if x.Op == token.NOT {
+				return impl(x.X, !want, fs, seen)
+			}
+		case *ssa.BinOp:
+			if x.Op == token.EQL || x.Op == token.NEQ {
+				var other ssa.Value
+				if isNilConst(x.Y) {
+					other = x.X
+				} else if isNilConst(x.X) {
+					other = x.Y
+				}
+				if other != nil && anyFieldName(other) == field {
+					return (x.Op == token.EQL) == want
+				}
+			}
+		case *ssa.Call:
+			if g := x.Call.StaticCallee(); g != nil {
+				return g.Pkg == h.Pkg && g.Blocks != nil && g != h && depth < 3 && boolImpliesFilter(g, want, field, depth+1)
+			}
+			return want && !x.Call.IsInvoke() && anyFieldName(x.Call.Value) == field
+		case *ssa.Phi:
+			if seen[v] {
+				return true
+			}
+			seen[v] = true
+			for i, e := range x.Edges {
+				if !impl(e, want, factsOnEdge(facts, x.Block().Preds[i], x.Block()), seen) {
+					return false
+				}
+			}
+			return true
+		}
+		return false
+	}
+	rets := returnsOf(h)
+	if len(rets) == 0 {
+		return false
+	}
+	for _, r := range rets {
+		ok := facts.HoldsOnAllEdges(r.Block(), func(fs factSet) bool { return filterPassedIn(fs, field, h.Pkg, depth) })
+		if !ok && !impl(r.Results[0], want, facts.At(r.Block()), map[ssa.Value]bool{}) {
+			return false
+		}
+	}
+	return true
+}
+
+func isBoolType(t types.Type) bool {
+	b, ok := t.Underlying().(*types.Basic)
+	return ok && b.Kind() == types.Bool
+}
+
+// ruleFiltersGate: inside the producers every send on the directory queue, every
+// listing of a sub-directory and every producer started for one happens only where
+// DirFilter is unset or accepted the directory; every send on the file queue only
+// where FileFilter is unset or accepted the file.  A site in a helper that does not
+// establish this itself is judged at the helper's call sites.
+func ruleFiltersGate(c *Ctx, rule string, prodLoop *ssa.Function) int {
+	pkg := prodLoop.Pkg
+	group := map[*ssa.Function]bool{}
+	var walk func(f *ssa.Function)
+	walk = func(f *ssa.Function) {
+		if f == nil || group[f] || f.Pkg != pkg || f.Blocks == nil {
+			return
+		}
+		group[f] = true
+		for _, ci := range Calls(f) {
+			if ci.Static != nil {
+				walk(ci.Static)
+			}
+		}
+		for _, an := range f.AnonFuncs {
+			walk(an)
+		}
+	}
+	walk(prodLoop)
+	callers := map[*ssa.Function][]*CallInfo{}
+	callerFn := map[*CallInfo]*ssa.Function{}
+	for f := range group {
+		for _, ci := range Calls(f) {
+			if ci.Static != nil && group[ci.Static] {
+				callers[ci.Static] = append(callers[ci.Static], ci)
+				callerFn[ci] = f
+			}
+		}
+	}
+	var gated func(f *ssa.Function, b *ssa.BasicBlock, field string, onPath map[*ssa.Function]bool) (bool, string)
+	gated = func(f *ssa.Function, b *ssa.BasicBlock, field string, onPath map[*ssa.Function]bool) (bool, string) {
+		if factsFor(f).HoldsOnAllEdges(b, func(fs factSet) bool { return filterPassedIn(fs, field, pkg, 0) }) {
+			return true, ""
+		}
+		// no callers left, or back in a function already on the way up: a call chain without the test
+		if onPath[f] || len(callers[f]) == 0 || len(onPath) > 3 {
+			return false, fname(f)
+		}
+		onPath[f] = true
+		defer delete(onPath, f)
+		for _, ci := range callers[f] {
+			if ok, where := gated(callerFn[ci], ci.Block, field, onPath); !ok {
+				return false, where
+			}
+		}
+		return true, ""
+	}
+	n := 0
+	ord := map[string]int{}
+	judge := func(f *ssa.Function, b *ssa.BasicBlock, pos token.Pos, what, field string) {
+		n++
+		ord[what+fname(f)]++
+		if k := ord[what+fname(f)]; k > 1 {
+			what = fmt.Sprintf("%s (#%d)", what, k)
+		}
+		ok, where := gated(f, b, field, map[*ssa.Function]bool{})
+		c.Check(ok, rule, what+" in "+fname(f), pos, "only where "+field+" is unset or accepted the node",
+			"reachable (through "+where+") on a path on which "+field+" is set and was not asked, or rejected the node — a rejected node is queued for its callback, or a rejected directory is entered and everything below it is visited")
+	}
+	var fns []*ssa.Function
+	for f := range group {
+		fns = append(fns, f)
+	}
+	sort.Slice(fns, func(i, j int) bool { return fns[i].Pos() < fns[j].Pos() })
+	for _, f := range fns {
+		f := f
+		eachInstr(f, func(b *ssa.BasicBlock, _ int, in ssa.Instruction) {
+			switch x := in.(type) {
+			case *ssa.Send:
+				switch nm, _ := fieldLoadName(x.Chan); nm {
+				case "dirChan":
+					judge(f, b, x.Pos(), "send on dirChan", "DirFilter")
+				case "fileChan":
+					judge(f, b, x.Pos(), "send on fileChan", "FileFilter")
+				}
+			case *ssa.Go:
+				if x.Call.StaticCallee() == prodLoop {
+					judge(f, b, x.Pos(), "producer started for a sub-directory", "DirFilter")
+				}
+			case *ssa.Call:
+				if x.Call.IsInvoke() && x.Call.Method.Name() == "ReadDir" {
+					// the producer's own directory was judged where the producer was started
+					own := true
+					for _, o := range Origins(x.Call.Args[0], FlowOpts{Transparent: pathTransparent}) {
+						if o.Kind != "field" && o.Kind != "const" {
+							own = false
+						}
+					}
+					if own && f == prodLoop {
+						return
+					}
+					judge(f, b, x.Pos(), "listing of a sub-directory", "DirFilter")
+				}
+			}
+		})
 	}
 	return n
 }
